@@ -156,6 +156,25 @@ def check_bytes(b, R, nt=True):
         pass
     if bytes(ba) != b:
         R.fail("C15.decode-mutates-input", f"decode_bytearray changed its argument for {b.hex()[:200]}")
+    canary(R, f"after decoding {b.hex()[:60]}")
+
+
+CANARY_ITEMS = [(6, b"\x03"), (1, b"ab"), (255, b""), (1, b"cd"), (255, b""), (3, bytes(300))]
+CANARY_BYTES = refhap.tlv_enc(CANARY_ITEMS)
+
+
+def canary(R, when):
+    """Nothing a codec call does may change what later calls return (module- or class-level state): a fixed message with separators is
+    encoded and decoded again after every case."""
+    try:
+        enc = bytes(TLV.encode_list([(t, bytearray(v)) if i % 2 else (t, v) for i, (t, v) in enumerate(CANARY_ITEMS)]))
+        dec = norm(TLV.decode_bytes(CANARY_BYTES))
+        sep = (TLV.kTLVType_Separator_Pair[0], bytes(TLV.kTLVType_Separator_Pair[1])) if hasattr(TLV, "kTLVType_Separator_Pair") else (255, b"")
+    except Exception as e:  # noqa: BLE001
+        R.fail("C15.state-leak", f"{when}: the fixed message no longer encodes/decodes: {type(e).__name__}: {e}", exc=type(e).__name__)
+        return
+    if enc != CANARY_BYTES or refhap.tlv_runs(dec) != refhap.tlv_runs(CANARY_ITEMS) or sep != (255, b""):
+        R.fail("C15.state-leak", f"{when}: the fixed message now encodes to {enc.hex()[:80]} / decodes to {dec!r:.160}; separator constant {sep!r}", exc="none")
 
 
 def run_bytes(case, R):
@@ -176,6 +195,17 @@ def enum_short(tier):
         yield {"b": bytes([a])}
     for a, b in itertools.product(range(256), repeat=2):
         yield {"b": bytes([a, b])}
+
+
+def enum_adjacent(tier):
+    """Two adjacent items of the same type with lengths 0..2 each (a decoder merges them), for every type incl. the separator; then a third item."""
+    for t in (0, 1, 6, 7, 254, 255):
+        for n1 in range(3):
+            for n2 in range(3):
+                body = bytes([t, n1]) + b"AB"[:n1] + bytes([t, n2]) + b"CD"[:n2]
+                yield {"b": body}
+                yield {"b": body + bytes([1, 1, 0x45])}
+                yield {"b": bytes([6, 1, 2]) + body}
 
 
 def enum_len3(tier):
@@ -245,6 +275,7 @@ SPEC = Property(
         Layer("bytes-le2", run_bytes, enumerate=enum_short, exhaustive=True, space="all 65,793 byte strings of length 0..2", min_nontrivial=60000),
         Layer("bytes-len3", run_bytes_batch, enumerate=enum_len3, exhaustive=True, tiers=("thorough",),
               space="all 16,777,216 byte strings of length 3 (one case = one 2-byte prefix x 256 last bytes)"),
+        Layer("bytes-adjacent-same-type", run_bytes, enumerate=enum_adjacent, exhaustive=True, space="6 types x lengths 0..2 x 0..2 of two adjacent equal-typed items, bare / followed / preceded by another item"),
         Layer("bytes-gen", run_bytes, strategy=byte_strings, n={"quick": 6000, "thorough": 200000}, min_nontrivial=500),
         *C15_BLE_LAYERS,
         Layer("bytes-atheris", run_fuzz, enumerate=lambda tier: iter([{"corpus": "empty", "runs": 1000000}, {"corpus": "seeded", "runs": 1000000}]), tiers=("thorough",),
